@@ -337,16 +337,17 @@ def reformat (r : Record) : Str × Nat × Str × Str :=
   | some (fn, ln, some line) => (fn, ln, r.frame.function, line)
   | _ => (r.frame.filename, r.frame.lineno, r.frame.function, r.frame.line)
 
-/-- the search `for l in range(len(new_trcback) - 1, 0, -1): if new_trcback[l][5]: …` that sets
-    `.lineno` (and `.source`): innermost record **of index ≥ 1** with a non-zero template line;
-    `rs` is given innermost-last as in the code; result `none` = the `else` branch ("a normal .py
-    file": the last record's own file and line) -/
-def pickLine (rs : List Record) : Option (Str × Nat) :=
-  let cands := (rs.drop 1).reverse
-  (cands.findSome? fun r =>
-    match r.tmpl with
-    | some (fn, ln, _) => if ln ≠ 0 then some (fn, ln) else none
-    | none => none)
+/-- does the record name a template line (`new_trcback[l][5]` truthy: a template frame whose line is not 0)? -/
+def Record.hit (r : Record) : Option (Str × Nat) :=
+  match r.tmpl with
+  | some (fn, ln, _) => if ln ≠ 0 then some (fn, ln) else none
+  | none => none
+
+/-- the search `for l in range(len(new_trcback) - 1, -1, -1): if new_trcback[l][5]: …` that sets
+    `.lineno` (and `.source`): the innermost record with a non-zero template line; `rs` is given
+    innermost-last as in the code; result `none` = the `else` branch ("a normal .py file": the last
+    record's own file and line) -/
+def pickLine (rs : List Record) : Option (Str × Nat) := rs.reverse.findSome? Record.hit
 
 end Tb
 
